@@ -50,7 +50,7 @@ KINDS = {
     "menu": "/docs",
     "menu-root": "/",
     "menu-via-symlink": "/docs-link",
-    "html": "/page.html",
+    "html": "/page.html", "html-alpha": "/alpha.html", "html-beta": "/beta.html",
     "mbox-folder": "/mail.mbox",
     "mbox-message": "/mail.mbox|/MBOX-MESSAGE/2",
     "maildir-folder": "/md",
@@ -67,6 +67,8 @@ KINDS = {
     "zip2-member": "/arc2.zip/nope/x",
     "zip2-listing": "/arc2.zip",
     "zip-gz-member": "/arc.zip/d/z.txt.gz",
+    # paths that exist in one archive only, asked for in the other one
+    "zip-cross-1": "/arc.zip/nope/x", "zip-cross-2": "/arc2.zip/d/b.txt", "zip-cross-3": "/arc2.zip/d/c.txt",
     "zip3-listing": "/arc3.zip", "zip3-ok": "/arc3.zip/ok.txt", "zip3-enc": "/arc3.zip/enc.txt",
     "zip3-d64": "/arc3.zip/d64.txt",
     "maildir-new": "/md/new", "maildir-cur": "/md/cur",
@@ -146,6 +148,9 @@ def make_spec(bigsize=9000, nmsg=3, ndocs=4):
         {"p": "small.txt", "k": "file", "d": "tiny\n"},
         {"p": "big.txt", "k": "file", "d": {"rep": ["0123456789abcdef\n", max(1, bigsize // 17)]}},
         {"p": "page.html", "k": "file", "d": "<html><head><title>A page</title></head><body>b</body></html>\n"},
+        # titles that take several reads to scan
+        {"p": "alpha.html", "k": "file", "d": "<html>\n<head>\n<title>Alpha\nalpha\nALPHA</title>\n</head><body>a</body></html>\n"},
+        {"p": "beta.html", "k": "file", "d": "<html>\n<head>\n<title>\nBeta\nbeta</title>\n</head><body>b</body></html>\n"},
         {"p": "docs", "k": "dir"},
         {"p": "docs/.abstract", "k": "file", "d": "About docs\n"},
         {"p": "mail.mbox", "k": "mbox", "n": nmsg},
